@@ -7,13 +7,13 @@ TRUST = ("Trusted base: TLC 1.8 + the TLA+ modules under spec/, the mechanical p
          "(and zlib/bz2/lzma/hashlib where the property involves codecs or digests). Bounded: seeded sampling with boundary pools in V, "
          "small-scope enumeration in M/G; pure-Python (*_py) modules only.")
 CLAIMED = {
- "C01": ("V: seeded schemas x data written back to back with schemaless_writer and read back; TLC evaluates the spec on every logged case "
+ "C01": ("M: MC_Binary (TLC, bounded universe of schema x value): RoundTrip, Concat, NormIdempotent. G: every case of that universe replayed into schemaless_writer/reader. V: seeded schemas x data written back to back with schemaless_writer and read back; TLC evaluates the spec on every logged case "
          "(Norm = expected value, partial sums of the spec's encoding lengths = stream positions). The judge is the spec, not fastavro's reader.",
          "TLA+ spec (AvroValue!Norm, AvroBinary!Encode/Decode) + TLC trace validation of logged round trips", "3/C01"),
- "C02": ("V: the bytes left on the stream by schemaless_writer are matched by TLC against AvroBinary!MatchCanon, an independent byte-level "
+ "C02": ("M: MC_Binary: Encode satisfies MatchCanon, canonical layout unique. G: writer bytes = spec bytes on the universe. V (+ every schemaless_writer call of the pinned test-suite in the thorough tier): the bytes left on the stream by schemaless_writer are matched by TLC against AvroBinary!MatchCanon, an independent byte-level "
          "definition (zig-zag varints on limb integers, IEEE fields from float.hex(), UTF-8 from code points, one counted block + 0).",
          "TLA+ spec (AvroBinary!MatchCanon) + TLC trace validation of logged encoder output", "3/C02"),
- "C03": ("G: TLC turns seeded (schema, datum, choice stream) cases into specification-valid layouts (AvroLayout!EncodeLayout: any block partition, "
+ "C03": ("M: MC_Binary PartitionInvariance / PrefixFree. G: TLC turns seeded (schema, datum, choice stream) cases into specification-valid layouts (AvroLayout!EncodeLayout: any block partition, "
          "positive or negative-count form), checks partition invariance on the spec for each, and prints bytes, expected value, index positions and "
          "out-of-range index encodings; these are replayed into schemaless_reader (value returned and skipped, indices patched, every proper prefix).",
          "TLA+ spec (AvroLayout, AvroBinary!Decode) + TLC-generated cases replayed into the implementation", "3/C03"),
@@ -21,15 +21,15 @@ CLAIMED = {
          "raw/parsed x stream kind; TLC judges the records yielded by fastavro.reader against Norm, the reported schema by canonical tree, codec and "
          "metadata against the arguments and the header found by the spec's own container parser; wrapper streams log the I/O methods used.",
          "TLA+ spec (AvroFile!ParseFile, AvroCanon, AvroValue!Norm) + TLC trace validation of logged write/read sessions", "3/C04"),
- "C05": ("V: every file written by fastavro is parsed by AvroFile!ParseFile (magic, metadata map, sync, blocks; payloads inflated by the standard library "
+ "C05": ("M: MC_Writer InvFile. G: AvroFileGen (spec as independent writer: any block partition, empty blocks, chunked header map, codec key absent) -> files offered to reader/block_reader; Java fixture files. V: every file written by fastavro is parsed by AvroFile!ParseFile (magic, metadata map, sync, blocks; payloads inflated by the standard library "
          "only) and must yield the records; block_reader offsets/sizes/counts must equal the spec parser's and tile the file.",
          "TLA+ spec (AvroFile!ParseFile, Tiles) + TLC trace validation of logged files and block listings", "3/C05"),
- "C06": ("V: real container files (all importable codecs, 0-6 blocks, blocks with >= 64 records) cut at every byte offset and with every sync marker "
+ "C06": ("M: MC_Writer InvCutSafe/InvSyncSafe on every file reachable by the writer model. V: real container files (all importable codecs, 0-6 blocks, blocks with >= 64 records) cut at every byte offset and with every sync marker "
          "altered at every byte position (bit flip / zero / random), read with reader and block_reader; the whole outcome table of a file is judged by "
          "TLC against the block structure found by AvroFile!ParseFile (yielded = prefix of written; normal end only at a block boundary; corrupted "
          "marker raises at that block); plus every proper prefix of spec-generated schemaless layouts.",
          "TLA+ spec (AvroFile!ParseFile, Boundaries; AvroLayout) + fault enumeration judged by TLC", "3/C06"),
- "C07": ("V: every history up to a bound over {write small/large/zero-byte/failing-early/failing-late, flush, write_block (donor inspected or not, Block "
+ "C07": ("M: MC_Writer (every history <= MaxOps, abstract and fastavro blocking policy, byte-level stream): ReadBack, Durable, InvFlushed. V: every history up to a bound over {write small/large/zero-byte/failing-early/failing-late, flush, write_block (donor inspected or not, Block "
          "objects reused), reopen for append with other schema/codec/metadata/sync} plus seeded random histories is run on fastavro.write.Writer; the "
          "stream bytes after every call are validated by TLC against the AvroWriter state machine (blocks pinned by AvroFile!ParseFile of the logged "
          "stream, pending block and dump decisions inferred), ReadBack/Durable evaluated in every state, header bytes immutable.",
@@ -41,10 +41,10 @@ CLAIMED = {
  "C13": ("V: fastavro's canonical text is compared with AvroCanon!CanonText of the spec-parsed tree, re-applied to its own output, compared across "
          "cosmetic rewrites (whose spec trees TLC first proves equal), and data written under the original are decoded under the canonical schema.",
          "TLA+ spec (AvroCanon) + TLC trace validation", "3/C13"),
- "C14": ("V: CRC-64-AVRO results are compared with Rabin!FP written in TLA+ from the specification (bit-serial definition and table form, equivalence "
+ "C14": ("M: MC_Rabin (table step = 8 serial steps on 256 bytes x 66 states; complete by GF(2) linearity). V: CRC-64-AVRO results are compared with Rabin!FP written in TLA+ from the specification (bit-serial definition and table form, equivalence "
          "model-checked); named digests are compared with hashlib (uninterpreted in the spec); unknown names must raise ValueError.",
          "TLA+ spec (Rabin) + TLC trace validation; hashlib as oracle for uninterpreted digests", "3/C14"),
- "C16": ("V: boundary-heavy logical values (dates 1..9999, times, aware/naive datetimes with offsets around the epoch, UUIDs, decimals for bytes and "
+ "C16": ("M: MC_Logical (calendar inverse/successor/month lengths on day windows; all 3.65 M days in the thorough tier). V: boundary-heavy logical values (dates 1..9999, times, aware/naive datetimes with offsets around the epoch, UUIDs, decimals for bytes and "
          "fixed with every edge incl. -0, too many digits, values not fitting) are written and read back; TLC compares the stored bytes with "
          "AvroLogical!Prep (civil-date arithmetic, BigNat epoch microseconds, two's complement) and the value read with Unprep; values the schema "
          "cannot represent must raise.",
